@@ -6,7 +6,7 @@ import ast
 from typing import Dict, List, Optional, Tuple
 
 from ..cfg import CFG, ENTRY, EXIT
-from ..core import AnalysisError, FunctionInfo, Project, arg_for, dotted, kwarg, norm, param_names
+from ..core import AnalysisError, FunctionInfo, Project, arg_for, dotted, kwarg, norm, param_names, walk_no_nested, kwarg
 from ..util import derived_names, header_calls, mentions, strip_casts, stmt_text, assignments
 
 MAT = "formulaic.materializers.base.FormulaMaterializer"
@@ -309,3 +309,24 @@ def spec_binder(P: Project):
     if len(out) != 1:
         raise AnalysisError(f"the per-part binding function of _prepare_model_specs was not found (mapped: {[norm(t) for t in targets]})")
     return out[0]
+
+
+def pooling_visitor(P: Project):
+    """Where `_prepare_factor_evaluation_model_spec` visits every part of the structured specs to pool factors and state
+    (today the nested `update_pooled_spec`, mapped with `model_specs._map`), found by ROLE: the function handed to `._map` on
+    the specs parameter, or the body of a loop over `<specs>._flatten()`.  Returns (node holding the visiting statements,
+    name of the variable naming the visited part, True if every leaf is visited)."""
+    f = P.func(MAT + "._prepare_factor_evaluation_model_spec")
+    specs = param_names(f.node)[1]
+    for c in walk_no_nested(f.node):
+        if isinstance(c, ast.Call) and isinstance(c.func, ast.Attribute) and c.func.attr == "_map" and norm(c.func.value) == specs and c.args:
+            base = norm(c.args[0]).split(".")[-1]
+            for q in (f.qualname + ".<locals>." + base, MAT + "." + base, f.module.name + "." + base):
+                g = P.functions.get(q)
+                if g is not None:
+                    ps = [p_ for p_ in param_names(g.node) if p_ not in ("self", "cls")]
+                    return g.node, ps[0], kwarg(c, "recurse") is None or norm(kwarg(c, "recurse")) == "True"
+    for lp in walk_no_nested(f.node):
+        if isinstance(lp, ast.For) and norm(lp.iter) == f"{specs}._flatten()" and isinstance(lp.target, ast.Name):
+            return lp, lp.target.id, True
+    raise AnalysisError("the pooling visitor of _prepare_factor_evaluation_model_spec was not found")
